@@ -77,6 +77,10 @@ def setup():
     import dns.rdtypes.ANY.SOA
 
     _d = dns
+    # ids the library draws for itself must not come from the OS entropy pool
+    import dns.entropy
+
+    dns.entropy.random_16 = lambda: 0x2A2A
 
 
 # ---------------------------------------------------------------------------
